@@ -186,6 +186,15 @@ func rulePutBasic(c *Check, rule string) {
 				}
 				lo, hi, ok := idxRange(ia.Index)
 				if !ok {
+					// the offsets listed in a constant package-level array, ranged over completely
+					if offs, okT := tableOffsets(c.P, ia.Index); okT {
+						for _, i := range offs {
+							if i >= 0 && i < 24 {
+								covered[i] = origin(x.Val)
+							}
+						}
+						continue
+					}
 					unknown = "a store at an index that is neither constant nor a constant-bounded counter"
 					continue
 				}
@@ -221,6 +230,58 @@ func rulePutBasic(c *Check, rule string) {
 	if bad == 0 {
 		c.Ok(rule, name, "all 24 header bytes are written: big-endian timestamp at 0-7, txn id at 8-15, version 0, the flags argument at 17, reserved bytes and both extension-count bytes 0", pos)
 	}
+}
+
+// tableOffsets: v is the element, at the running index of a `range` over the
+// whole array, of a package-level array that nothing changes (consttab.go):
+// all its entries.
+func tableOffsets(p *Program, v ssa.Value) ([]int64, bool) {
+	ix, ok := v.(*ssa.Index)
+	if !ok {
+		return nil, false
+	}
+	ld, ok := ix.X.(*ssa.UnOp)
+	if !ok || ld.Op != token.MUL {
+		return nil, false
+	}
+	g, ok := ld.X.(*ssa.Global)
+	if !ok {
+		return nil, false
+	}
+	tab := p.globalTable(g)
+	if tab == nil || tab.kind != "array" {
+		return nil, false
+	}
+	// the index: rangeindex + 1 of a loop bounded by the array's length
+	add, ok := ix.Index.(*ssa.BinOp)
+	if !ok || add.Op != token.ADD {
+		return nil, false
+	}
+	phi, ok := add.X.(*ssa.Phi)
+	if !ok || phi.Comment != "rangeindex" {
+		return nil, false
+	}
+	iff, ok := phi.Block().Instrs[len(phi.Block().Instrs)-1].(*ssa.If)
+	if !ok {
+		return nil, false
+	}
+	cmp, ok := iff.Cond.(*ssa.BinOp)
+	if !ok || cmp.Op != token.LSS || cmp.X != ssa.Value(add) {
+		return nil, false
+	}
+	k, ok := cmp.Y.(*ssa.Const)
+	if !ok || k.Value == nil || int(k.Int64()) != len(tab.entries) {
+		return nil, false
+	}
+	var out []int64
+	for _, e := range tab.entries {
+		n, ok := constInt(e.val)
+		if !ok {
+			return nil, false
+		}
+		out = append(out, n)
+	}
+	return out, true
 }
 
 func isZeroConst(v ssa.Value) bool {
